@@ -6,15 +6,15 @@ sources, is run on every family with indices <= 3 (4 in the thorough tier); its 
 sign with the extracted model, and checked against an independent Python statement of the property (orthogonality,
 no duplicate up to sign, closure under the point group, the family itself is there, unit/orthogonal vectors, tensors,
 Schmid factors)."""
-import glob, itertools, math, os
+import glob, itertools, math, os, re, threading
 from math import gcd
 from vlib import guarded_main, REPO
 
 SRCS = (["src/Material/SlipSystemsDescription.cxx", "src/Exception/TFELException.cxx", "src/Utilities/GenTypeCastError.cxx"]
         + sorted("src/NUMODIS/" + os.path.basename(f) for f in glob.glob(os.path.join(REPO, "src/NUMODIS/*.cxx"))))
-EXTRACT = '''From C56 Require Import C56Spec C56Model.
+EXTRACT = '''From C56 Require Import C56Spec C56Model C56IMModel.
 Require Import ExtrOcamlBasic.
-Extraction "c56_model.ml" cubic_systems hcp_systems.
+Extraction "c56_model.ml" cubic_systems hcp_systems cubic_im hcp_im.
 '''
 DIRS3 = [(1, 0, 0), (1, 1, 0), (1, 1, 1), (1, 2, 3), (-3, 1, 2), (0, 2, -1), (5, -7, 11)]
 DIRS4 = [(0, 0, 0, 1), (1, 0, -1, 0), (1, 1, -2, 0), (1, 1, -2, 3), (2, -1, -1, 1), (1, -2, 1, -5), (3, -1, -2, 2)]
@@ -195,12 +195,326 @@ def parse_blocks(out):
     return blocks
 
 
+# ---------------------------------------------------------------- interaction-matrix structure
+def direction(v):
+    """a non-null index vector up to sign and scale (what numodis' operator== / Coincide compare)"""
+    return canon(reduce_gcd(v))
+
+
+def im_orbit_labels(hcp, systems):
+    """independent statement: label of the orbit of every ORDERED pair of systems under the point group (48 signed
+    permutations / 24 operations of the hexagonal group on Miller-Bravais indices), vectors compared as directions"""
+    group, act = (HEX_GROUP, act4) if hcp else (CUBIC_GROUP, act3)
+    imgs = [[(direction(act(g, b)), direction(act(g, p))) for (b, p) in systems] for g in group]
+    n = len(systems)
+    return [[min((im[i], im[j]) for im in imgs) for j in range(n)] for i in range(n)]
+
+
+def im_property_failures(hcp, fams, n_coeff, sizes, M):
+    """fams: list of lists of systems (one per family); M: rank of every ordered pair (real output)"""
+    systems = [s for f in fams for s in f]
+    n = len(systems)
+    fails = []
+    flat = [r for row in M for r in row]
+    if len(M) != n or any(len(row) != n for row in M):
+        return [("shape", "matrix is not %d x %d" % (n, n))]
+    if sum(sizes) != n * n or len(sizes) != n_coeff:
+        fails.append(("partition", "the classes hold %d pairs in %d classes for %d x %d pairs and %d coefficients" % (
+            sum(sizes), len(sizes), n, n, n_coeff)))
+    for r in range(n_coeff):
+        if flat.count(r) == 0 or (r < len(sizes) and flat.count(r) != sizes[r]):
+            fails.append(("partition", "rank %d: class of %s pairs, %d entries of the matrix" % (
+                r, sizes[r] if r < len(sizes) else "?", flat.count(r))))
+            break
+    if any(r >= n_coeff for r in flat):
+        fails.append(("partition", "a rank >= the number of coefficients %d" % n_coeff))
+    if n and M[0][0] != 0:
+        fails.append(("diagonal", "the first pair (s0, s0) has rank %d" % M[0][0]))
+    if any(any(v == 0 for v in map(lambda w: sum(abs(x) for x in w), s)) for s in systems):
+        return fails      # null vectors: no geometric meaning
+    lab = im_orbit_labels(hcp, systems)
+    r2l, l2r = {}, {}
+    for i in range(n):
+        for j in range(n):
+            r, l = M[i][j], lab[i][j]
+            if r2l.setdefault(r, (l, i, j))[0] != l:
+                (_, i0, j0) = r2l[r]
+                fails.append(("orbits", "pairs (%s : %s) and (%s : %s) share rank %d but no operation of the point group maps "
+                              "the first onto the second" % (systems[i0], systems[j0], systems[i], systems[j], r)))
+                return fails
+            if l2r.setdefault(l, (r, i, j))[0] != r:
+                (r0, i0, j0) = l2r[l]
+                fails.append(("orbits", "pairs (%s : %s) [rank %d] and (%s : %s) [rank %d] are mapped onto each other by an "
+                              "operation of the point group but have different ranks" % (
+                                  systems[i0], systems[j0], r0, systems[i], systems[j], r)))
+                return fails
+    return fails
+
+
+def im_transposition(M):
+    """tau with rank(j, i) = tau(rank(i, j)) (well defined when the classes are orbits); None if not a map"""
+    tau = {}
+    n = len(M)
+    for i in range(n):
+        for j in range(n):
+            if tau.setdefault(M[i][j], M[j][i]) != M[j][i]:
+                return None
+    return tau
+
+
+def key3(b, p):
+    return (tuple(sorted(map(abs, b))), tuple(sorted(map(abs, reduce_gcd(p)))))
+
+
+def key4(b, p):
+    q = reduce_gcd(p)
+    return (tuple(sorted(b[:3])), abs(b[3])), (min(tuple(sorted(q[:3])), tuple(sorted(neg(q)[:3]))), abs(q[3]))
+
+
+def im_descriptions(c):
+    """descriptions (structure, [families]) whose interaction-matrix structure is compared with the model"""
+    R = range(-2, 3)
+    f3 = [(b, p) for b in itertools.product(R, repeat=3) for p in itertools.product(R, repeat=3)
+          if any(b) and any(p) and dot(b, p) == 0]
+    v4 = [v for v in itertools.product(R, repeat=4) if sum(v[:3]) == 0 and any(v)]
+    f4 = [(b, p) for b in v4 for p in v4 if dot(b, p) == 0]
+    rep3, rep4 = {}, {}
+    for f in f3:
+        rep3.setdefault(key3(*f), f)
+    for f in f4:
+        rep4.setdefault(key4(*f), f)
+    rep3.update({key3(*f): f for f in [((1, -1, 0), (1, 1, 1)), ((1, 1, 1), (1, -1, 0)), ((1, 1, 1), (1, 1, -2))]})
+    D = []
+    # every single family: all of them for FCC and HCP, one per orbit for BCC and Cubic (quick) / all (thorough)
+    for f in f3:
+        D.append(("fcc", [f]))
+    for cs in ("bcc", "cubic"):
+        for f in (sorted(rep3.values()) if c.quick() else f3):
+            D.append((cs, [f]))
+    for f in f4:
+        D.append(("hcp", [f]))
+    # pairs of families (one representative per orbit).  quick: a seeded subset
+    k3, k4 = sorted(rep3), sorted(rep4)
+    pairs3 = [(a, b) for a in k3 for b in k3 if a != b]
+    pairs4 = [(a, b) for a in k4 for b in k4 if a != b]
+    if c.quick():
+        usual3 = [(key3((1, -1, 0), (1, 1, 1)), key3((1, 1, 0), (0, 0, 1))), (key3((1, 1, 1), (1, -1, 0)), key3((1, 1, 1), (1, 1, -2)))]
+        pairs3 = usual3 + c.rng.sample(pairs3, 10)
+        pairs4 = c.rng.sample(pairs4, 16)
+    for i, (a, b) in enumerate(pairs3):
+        D.append((("fcc", "bcc", "cubic")[i % 3] if i >= 2 else ("fcc", "bcc")[i], [rep3[a], rep3[b]]))
+    for (a, b) in pairs4:
+        D.append(("hcp", [rep4[a], rep4[b]]))
+    # the same family twice with the opposite Burgers vector, a multiple of the Burgers vector, three / four families
+    D.append(("fcc", [((1, -1, 0), (1, 1, 1)), ((-1, 1, 0), (1, 1, 1))]))
+    D.append(("fcc", [((1, -1, 0), (1, 1, 1)), ((2, -2, 0), (1, 1, 1))]))
+    D.append(("bcc", [((1, 1, 1), (1, -1, 0)), ((1, 1, 1), (1, 1, -2)), ((1, 1, 1), (1, 2, -3))]))
+    D.append(("hcp", [((1, 1, -2, 0), (0, 0, 0, 1)), ((1, 1, -2, 0), (1, -1, 0, 0)), ((1, 1, -2, 0), (1, -1, 0, 1))]))
+    D.append(("hcp", [((1, 1, -2, 0), (0, 0, 0, 1)), ((1, 1, -2, 0), (1, -1, 0, 0)), ((1, 1, -2, 0), (1, -1, 0, 1)),
+                      ((1, 1, -2, -3), (1, 0, -1, 1))]))
+    return D
+
+
+def parse_coq_matrix(path, name):
+    txt = open(path).read()
+    m = re.search(r"Definition %s\b.*?:=\s*(\[\[.*?\]\])" % name, txt, flags=re.S)
+    return [[int(x) for x in row.split(";")] for row in re.findall(r"\[([0-9;\s]+)\]", m.group(1))]
+
+
+def doc_samples(repo):
+    """the sample outputs of docs/web/singlecrystal.md for FCC <1,-1,0>{1,1,1}: the printed matrix, the number of
+    coefficients, the pairs listed for rank 0 and rank 1"""
+    path = os.path.join(repo, "docs", "web", "singlecrystal.md")
+    if not os.path.exists(path):
+        return None
+    txt = open(path).read()
+    out = {}
+    m = re.search(r"mfront-query --interaction-matrix SlipSystemGenerationTest\.mfront\s*\n((?:\|[^\n]*\|\s*\n)+)", txt)
+    if m:
+        out["matrix"] = [[int(x) for x in l.strip().strip("|").split()] for l in m.group(1).strip().splitlines()]
+    m = re.search(r"number of independent coefficients:\s*(\d+)", txt)
+    if m:
+        out["n"] = int(m.group(1))
+    for r in (0, 1):
+        m = re.search(r"^- rank %d:(.*)$" % r, txt, flags=re.M)
+        if m:
+            prs = re.findall(r"\(\[([-\d,]+)\]\(([-\d,]+)\):\[([-\d,]+)\]\(([-\d,]+)\)\)", m.group(1))
+            tv = lambda s: tuple(int(x) for x in s.split(","))
+            out["rank%d" % r] = [((tv(a), tv(b)), (tv(cc), tv(d))) for (a, b, cc, d) in prs]
+    return out
+
+
+def im_line(cs, fams):
+    return "im " + cs + " " + " ".join(" ".join(map(str, b)) + " " + " ".join(map(str, p)) for (b, p) in fams)
+
+
+def check_interaction_matrices(c, drv, mdl):
+    D = im_descriptions(c)
+    lines = [im_line(cs, fams) for (cs, fams) in D]
+    c.log("interaction matrices: running the real code on %d descriptions" % len(lines))
+    rc, out, err = c.run([drv], input="\n".join(lines) + "\n", timeout=900)
+    if rc != 0:
+        c.report("im-driver", "the driver running the real getInteractionMatrixStructure failed (rc=%d): %s" % (rc, err[-400:]),
+                 {"stderr": err[-3000:]}, False)
+        return
+    blocks = []
+    cur = None
+    for l in out.splitlines():
+        if l.startswith("BEGIN "):
+            cur = {"sys": {}, "err": None, "n": None, "sizes": None, "M": []}
+            blocks.append(cur)
+        elif l.startswith("SYS "):
+            t = l.split()
+            v = list(map(int, t[2:]))
+            h = len(v) // 2
+            cur["sys"].setdefault(int(t[1]), []).append((tuple(v[:h]), tuple(v[h:])))
+        elif l.startswith("IMR "):
+            cur["n"] = int(l.split()[1])
+        elif l.startswith("IMC"):
+            cur["sizes"] = list(map(int, l.split()[1:]))
+        elif l.startswith("IM "):
+            cur["M"].append(list(map(int, l.split()[1:])))
+        elif l.startswith("ERR"):
+            cur["err"] = l[3:].strip() or "error"
+    if len(blocks) != len(D):
+        c.report("im-driver", "driver answered %d blocks for %d descriptions" % (len(blocks), len(D)), {}, False)
+        return
+    # the model, once per distinct list of systems
+    todo = {}
+    for (cs, fams), blk in zip(D, blocks):
+        if blk["err"] is None and blk["n"] is not None:
+            L = tuple(s for f in sorted(blk["sys"]) for s in blk["sys"][f])
+            blk["L"] = L
+            todo.setdefault((cs == "hcp", L), None)
+    keys = sorted(todo, key=lambda k: -len(k[1]))
+    chunks = [keys[i::3] for i in range(3)]
+
+    def run_model(ks):
+        inp = "\n".join(("im4 " if h else "im3 ") + " ".join(" ".join(map(str, b)) + " " + " ".join(map(str, p)) for (b, p) in L)
+                        for (h, L) in ks) + "\n"
+        rc, mo, me = c.run([mdl], input=inp, timeout=c.pick(600, 2400))
+        if rc != 0:
+            raise RuntimeError("extracted interaction-matrix model failed: " + me[-500:])
+        res, curm = [], None
+        for l in mo.splitlines():
+            if l.startswith("BEGIN "):
+                curm = {"n": None, "M": []}
+                res.append(curm)
+            elif l.startswith("IMR "):
+                curm["n"] = int(l.split()[1])
+            elif l.startswith("IM "):
+                curm["M"].append(list(map(int, l.split()[1:])))
+        assert len(res) == len(ks)
+        return list(zip(ks, res))
+
+    from concurrent.futures import ThreadPoolExecutor
+    with ThreadPoolExecutor(max_workers=3) as ex:
+        for part in ex.map(run_model, [ch for ch in chunks if ch]):
+            for k, r in part:
+                todo[k] = r
+    c.log("interaction matrices: model evaluated on %d distinct lists of systems; comparing" % len(todo))
+    verdict = {}
+    seen_corr, seen_prop = set(), set()
+    nsym = {"sym": 0, "asym": 0}
+    n_real = n_err = 0
+    for (cs, fams), blk, line in zip(D, blocks, lines):
+        desc = cs + ":" + ";".join(",".join(map(str, b)) + "|" + ",".join(map(str, p)) for (b, p) in fams)
+        if blk["err"] is not None:
+            n_err += 1
+            # a single orthogonal family is never refused
+            if len(fams) == 1:
+                c.report("im-error:" + desc, "getInteractionMatrixStructure / addSlipSystemsFamily refused %s: %s" % (desc, blk["err"]),
+                         {"description": desc}, True)
+            continue
+        n_real += 1
+        hcp = cs == "hcp"
+        L = blk["L"]
+        c.count(1, ("im", cs, L), len(L) > 1)
+        vk = (hcp, L, blk["n"], tuple(blk["sizes"]), tuple(map(tuple, blk["M"])))
+        if vk not in verdict:
+            famsL = [blk["sys"][f] for f in sorted(blk["sys"])]
+            verdict[vk] = (im_property_failures(hcp, famsL, blk["n"], blk["sizes"], blk["M"]), im_transposition(blk["M"]))
+        pf, tau = verdict[vk]
+        for (clause, wit) in pf:
+            if (cs, clause) not in seen_prop:
+                seen_prop.add((cs, clause))
+                c.report("im-%s:%s" % (clause, desc), "interaction-matrix structure of %s: %s" % (desc, wit),
+                         {"description": desc, "clause": clause, "witness": wit, "matrix": blk["M"], "how": "echo '%s' | driver" % line}, True)
+        if tau is not None:
+            nsym["sym" if all(k == v for k, v in tau.items()) else "asym"] += 1
+        m = todo[(hcp, L)]
+        if (m["n"], m["M"]) != (blk["n"], blk["M"]) and cs not in seen_corr:
+            seen_corr.add(cs)
+            ij = next(((i, j) for i in range(len(L)) for j in range(len(L))
+                       if i >= len(m["M"]) or i >= len(blk["M"]) or m["M"][i][j] != blk["M"][i][j]), None)
+            what = ("%d coefficients in the code, %d in the model" % (blk["n"], m["n"])) if ij is None else (
+                "pair (%s : %s) has rank %d in the code and %d in the model (%d / %d coefficients)" % (
+                    L[ij[0]], L[ij[1]], blk["M"][ij[0]][ij[1]], m["M"][ij[0]][ij[1]], blk["n"], m["n"]))
+            c.report("im-correspondence:" + desc, "interaction-matrix structure of %s: model and code disagree: %s" % (desc, what),
+                     {"description": desc, "code": blk["M"], "model": m["M"], "how": "echo '%s' | driver" % line}, bool(pf))
+    c.sample({"description": "fcc:1,-1,0|1,1,1", "coefficients": blocks[lines.index(im_line("fcc", [((1, -1, 0), (1, 1, 1))]))]["n"]})
+    # the documented example: literal matrix of the Coq theorem, samples of the documentation
+    blk = blocks[lines.index(im_line("fcc", [((1, -1, 0), (1, 1, 1))]))]
+    lit = parse_coq_matrix(os.path.join(c.dir, "coq", "C56IMProofs.v"), "fcc_oct_matrix")
+    lit_sys = re.search(r"Definition fcc_oct\b.*?:=\s*\[(.*?)\]\.", open(os.path.join(c.dir, "coq", "C56IMProofs.v")).read(), flags=re.S)
+    lit_L = [tuple(int(x) for x in re.findall(r"-?\d+", s)) for s in re.findall(r"\(\(.*?\)\)", lit_sys.group(1))]
+    lit_L = tuple((t[:3], t[3:]) for t in lit_L)
+    if blk["err"] is not None or blk["M"] != lit or blk["L"] != lit_L or blk["n"] != 7:
+        c.report("im-documented:fcc:1,-1,0|1,1,1", "FCC <1,-1,0>{1,1,1}: the code returns the systems %s, %s coefficients and the matrix %s; "
+                 "theorem C56_im_fcc_documented is about the systems %s and the matrix %s" % (blk.get("L"), blk["n"], blk["M"], lit_L, lit),
+                 {"code": blk["M"], "theorem": lit}, True)
+    doc_bad = False
+    doc = doc_samples(REPO)
+    if doc is None or not doc:
+        c.notes.append("docs/web/singlecrystal.md not found or without samples: documentation not compared")
+    elif blk["err"] is None:
+        L = blk["L"]
+        if doc.get("n") is not None and doc["n"] != blk["n"]:
+            c.report("doc:singlecrystal.md:number-of-coefficients", "docs/web/singlecrystal.md announces %d independent coefficients for FCC "
+                     "<1,-1,0>{1,1,1}; the code returns %d" % (doc["n"], blk["n"]), {}, True)
+        for r in (0, 1):
+            if "rank%d" % r in doc:
+                real = set((L[i], L[j]) for i in range(len(L)) for j in range(len(L)) if blk["M"][i][j] == r)
+                if set(doc["rank%d" % r]) != real:
+                    c.report("doc:singlecrystal.md:rank-%d-listing" % r, "docs/web/singlecrystal.md lists %d pairs of rank %d for FCC "
+                             "<1,-1,0>{1,1,1}; the code puts %d pairs there and the two sets differ" % (len(doc["rank%d" % r]), r, len(real)),
+                             {"documented": sorted(doc["rank%d" % r]), "code": sorted(real)}, True)
+        if "matrix" in doc and doc["matrix"] != blk["M"]:
+            doc_bad = True
+            ij = next((i, j) for i in range(12) for j in range(12) if doc["matrix"][i][j] != blk["M"][i][j])
+            c.report("doc:singlecrystal.md:interaction-matrix-sample:fcc:1,-1,0|1,1,1",
+                     "docs/web/singlecrystal.md prints, as the output of `mfront-query --interaction-matrix` for FCC <1,-1,0>{1,1,1}, a matrix "
+                     "that the code does not return: e.g. pair (%s : %s) has rank %d in the sample and %d in the code (and in the "
+                     "`--interaction-matrix-structure` listing printed right under it); the sample is the structure of <1,1,1>{1,-1,0}" % (
+                         L[ij[0]], L[ij[1]], doc["matrix"][ij[0]][ij[1]], blk["M"][ij[0]][ij[1]]),
+                     {"documented": doc["matrix"], "code": blk["M"], "how": "echo 'im fcc 1 -1 0 1 1 1' | driver"}, True)
+    c.notes.append("interaction-matrix structure: %d descriptions run through the real code (%d refused by addSlipSystemsFamily), %d distinct "
+                   "lists of systems through the model; structure symmetric for %d descriptions, NOT symmetric (by design) for %d" % (
+                       n_real + n_err, n_err, len(todo), nsym["sym"], nsym["asym"]))
+    return {"doc_bad": doc_bad, "n": n_real}
+
+
 def main(c):
     drv = c.cxx("driver", ["driver.cxx"], SRCS)
-    mdl = c.ocaml_extract("c56", ["C56Spec.v", "C56Model.v"], EXTRACT, "model_driver.ml")
+    mdl = c.ocaml_extract("c56", ["C56Spec.v", "C56Model.v", "C56IMModel.v"], EXTRACT, "model_driver.ml")
     c.trusted("props/C56/driver.cxx (calls of the public API of SlipSystemsDescription, printing), props/C56/model_driver.ml "
               "(int <-> extracted Z, printing), the Python comparison up to sign and the Python statement of the property",
               "C++ int arithmetic taken as arithmetic on Z (no overflow for the indices used in practice)")
+    # Coq: everything that does not depend on the observations, compiled while the drivers run
+    coq_files = ["C56Spec.v", "C56Model.v", "C56IMSpec.v", "C56IMModel.v", "C56IMProofs.v", "Properties_C56_im.v"]
+    if not c.quick():
+        coq_files += ["C56IMProofsMore.v", "Properties_C56_im_more.v"]
+    coq_files += ["C56Proofs.v", "C56Geometry.v", "Properties_C56.v"]
+    coq_box = {}
+
+    def coq_job():
+        try:
+            coq_box["res"] = c.coq(coq_files, timeout=1500)
+        except BaseException as e:      # reported after the join
+            coq_box["exc"] = e
+
+    coq_thread = threading.Thread(target=coq_job)
+    coq_thread.start()
     fam3, fam4, free4 = families(c)
     lines = []
     meta = []   # (kind, cs, b, p)
@@ -403,20 +717,34 @@ def main(c):
     c.coverage["exhaustive"] = True
     c.coverage["traces_validated_against_impl"] = len([m for m in meta if m[0] in ("sys", "free")])
 
+    # ---------------------------------------------------------------- interaction-matrix structure
+    im = check_interaction_matrices(c, drv, mdl)
+
     # ---------------------------------------------------------------- proofs
-    files = ["C56Spec.v", "C56Model.v", "C56Proofs.v", "C56Geometry.v", "Properties_C56.v"]
+    # the files that do not depend on what was observed are compiled in a thread started at the beginning of the run; the
+    # two files chosen from the observations (HCP closure, sample of the documentation) are compiled now
+    coq_thread.join()
+    res = coq_box.get("res")
+    if res is None:
+        raise RuntimeError("Coq thread failed: %r" % coq_box.get("exc"))
     closure_observed = any(f.startswith("hcp:") for (f, _) in clause_fail.get("closure", []))
+    files2 = []
     if variant == "fixed" and not closure_observed:
-        files.append("Properties_C56_hcp_closed.v")
+        files2.append("Properties_C56_hcp_closed.v")
     else:
-        files.append("Properties_C56_hcp_refuted.v")
-    c.log("proofs")
-    res = c.coq(files, timeout=900)
-    if not res.ok:
-        if any(v[3] for v in c.violations):
-            c.notes.append("proof obligations failed: %s; concrete failing inputs reported above" % [f[2] for f in res.failed])
-        else:
-            c.coq_failures(res, None)
+        files2.append("Properties_C56_hcp_refuted.v")
+    if im and im["doc_bad"]:
+        files2.append("Properties_C56_im_doc_refuted.v")
+    c.log("proofs (files chosen from the observations: %s)" % files2)
+    results = [res]
+    if res.ok:
+        results.append(c.coq(files2, timeout=900))
+    for r in results:
+        if not r.ok:
+            if any(v[3] for v in c.violations):
+                c.notes.append("proof obligations failed: %s; concrete failing inputs reported above" % [f[2] for f in r.failed])
+            else:
+                c.coq_failures(r, None)
 
 
 guarded_main("C56", main)
